@@ -1,6 +1,6 @@
 (* Properties_C05.v -- type-unsafe connections are rejected at compile time; well-typed ones compile.
    Statements only (proofs in TypeProofs.v). *)
-From Coq Require Import List String Bool.
+From Coq Require Import List String Bool ZArith.
 Import ListNotations.
 Require Import GenTypes AdaptorModel TypeModel TypeProofs gen.Tables.
 Local Open Scope string_scope.
@@ -15,6 +15,12 @@ Print Assumptions C05_gen_modes_ok.
 Theorem C05_gen_memfun_pass_ok : memptr_ok gen_memfun_pass = true.
 Proof. vm_compute. reflexivity. Qed.
 Print Assumptions C05_gen_memfun_pass_ok.
+
+(* bind<I> / hide<I> cut the argument tuple with the arithmetic the model expects: a position outside
+   the argument list makes a count negative, which does not compile *)
+Theorem C05_gen_slices_ok : slices_ok gen_slices = true.
+Proof. vm_compute. reflexivity. Qed.
+Print Assumptions C05_gen_slices_ok.
 
 (* every explicit conversion written in the headers is one the model accounts for *)
 Theorem C05_gen_conversions_are_the_modelled_ones : casts_ok gen_casts = true.
@@ -34,14 +40,17 @@ Print Assumptions C05_gen_erased_call_typed.
    the library passes them and its result converts: the hops neither launder a mismatch nor reject a
    legal call -- for every arity, every signature and every functor shape of the universe *)
 Theorem C05_accepts_iff_callable :
-  forall M P, tmodes_ok M = true -> memptr_ok P = true ->
-    forall sig r f, lib_accepts M P sig r f = direct_ok sig r f.
+  forall M P S, tmodes_ok M = true -> memptr_ok P = true -> slices_ok S = true ->
+    forall sig r f, lib_accepts M P S sig r f = direct_ok sig r f.
 Proof. exact accepts_iff_callable. Qed.
 Print Assumptions C05_accepts_iff_callable.
 
 Corollary C05_library_accepts_iff_callable :
-  forall sig r f, lib_accepts gen_hop_modes gen_memfun_pass sig r f = direct_ok sig r f.
-Proof. exact (accepts_iff_callable gen_hop_modes gen_memfun_pass C05_gen_modes_ok C05_gen_memfun_pass_ok). Qed.
+  forall sig r f, lib_accepts gen_hop_modes gen_memfun_pass gen_slices sig r f = direct_ok sig r f.
+Proof.
+  exact (accepts_iff_callable gen_hop_modes gen_memfun_pass gen_slices
+           C05_gen_modes_ok C05_gen_memfun_pass_ok C05_gen_slices_ok).
+Qed.
 Print Assumptions C05_library_accepts_iff_callable.
 
 (* the named rejection classes *)
@@ -66,6 +75,29 @@ Print Assumptions C05_nonconst_method_on_const_object_rejected.
 Theorem C05_method_of_foreign_class_rejected :
   forall rel oc mc ps rf sig r, memptr_doc rel = false -> direct_ok sig r (TMemBound rel oc mc ps rf) = false.
 Proof. exact foreign_method_rejected. Qed.
+
+(* hide<i> / bind<i> with a position that names no argument (for bind: beyond one past the last) *)
+Theorem C05_hide_position_out_of_range_rejected :
+  forall i f sig r, List.length sig <= i -> direct_ok sig r (THideAt i f) = false.
+Proof. exact hide_at_out_of_range_rejected. Qed.
+Print Assumptions C05_hide_position_out_of_range_rejected.
+
+Theorem C05_bind_position_out_of_range_rejected :
+  forall i f v sig r, List.length sig < i -> direct_ok sig r (TBindAt i f v) = false.
+Proof. exact bind_at_out_of_range_rejected. Qed.
+Print Assumptions C05_bind_position_out_of_range_rejected.
+
+(* at the end of the argument list the positional adaptors are the unpositioned ones *)
+Theorem C05_hide_at_last_is_hide :
+  forall f args, args <> [] ->
+    callable_args (THideAt (List.length args - 1) f) args = callable_args (THideLast f) args.
+Proof. exact hide_at_last_is_hide. Qed.
+Print Assumptions C05_hide_at_last_is_hide.
+
+Theorem C05_bind_at_end_is_bind :
+  forall f v args, callable_args (TBindAt (List.length args) f v) args = callable_args (TBindLast f v) args.
+Proof. exact bind_at_end_is_bind. Qed.
+Print Assumptions C05_bind_at_end_is_bind.
 
 Theorem C05_incompatible_result_rejected :
   forall ps rf sig r, result_ok rf r = false -> direct_ok sig r (TFun ps rf) = false.
@@ -108,19 +140,40 @@ Example C05_by_value_hop_refuted :
   let M := ("retype_return_functor<void>", [ByValue]) :: gen_hop_modes in
   let f := THideLast (THideReturn (TFun [mkP TInt FLRef] (Some TInt))) in
   tmodes_ok M = false /\
-  lib_accepts M MPImplicit [mkP TInt FVal; mkP TInt FVal] None f = true /\
+  lib_accepts M MPImplicit gen_slices [mkP TInt FVal; mkP TInt FVal] None f = true /\
   direct_ok [mkP TInt FVal; mkP TInt FVal] None f = false /\
   (* ... but not when hide_return is outermost (explicit instantiation by call_it) *)
-  lib_accepts M MPImplicit [mkP TInt FVal] None (THideReturn (TFun [mkP TInt FLRef] (Some TInt))) = false.
+  lib_accepts M MPImplicit gen_slices [mkP TInt FVal] None (THideReturn (TFun [mkP TInt FLRef] (Some TInt))) = false.
 Proof. vm_compute. repeat split; reflexivity. Qed.
 
 (* a factory that casts the method pointer would accept a derived-class method on a base object *)
 Example C05_explicit_memptr_refuted :
-  lib_accepts [] MPExplicit [] None (TMemBound RMethInDerived false false [] None) = true /\
+  lib_accepts [] MPExplicit expected_slices [] None (TMemBound RMethInDerived false false [] None) = true /\
   direct_ok [] None (TMemBound RMethInDerived false false [] None) = false.
 Proof. exact explicit_memptr_launders. Qed.
 
+(* tail-count arithmetic that clamps at zero instead of going negative would accept hide<2> on a
+   two-argument signal: signal<void(int,int)>.connect(hide<2>(ptr_fun of a void(int,int) function)) *)
+Example C05_clamped_hide_refuted :
+  let S' :=
+    [ ("bind_functor", [("tuple_start", ALoc); ("tuple_end", ASub ASize ALoc)])
+    ; ("hide_functor", [("tuple_start", AIf (AEq ALoc (ANeg (AConst 1))) (ASub ASize (AConst 1)) ALoc);
+                        ("tuple_end", AIf (AEq (ASub ASize ALoc) (AConst 0)) (AConst 0)
+                                          (ASub (ASub ASize ALoc) (AConst 1)))]) ] in
+  let f := THideAt 2 (TFun [mkP TInt FVal; mkP TInt FVal] None) in
+  slices_ok S' = false /\
+  lib_accepts [] MPImplicit S' [mkP TInt FVal; mkP TInt FVal] None f = true /\
+  direct_ok [mkP TInt FVal; mkP TInt FVal] None f = false /\
+  (* in range the clamped arithmetic and the expected one agree *)
+  lib_accepts [] MPImplicit S' [mkP TInt FVal; mkP TInt FVal] None (THideAt 1 (TFun [mkP TInt FVal] None)) = true.
+Proof. exact clamped_hide_launders. Qed.
+Print Assumptions C05_clamped_hide_refuted.
+
 Example C05_example :
   direct_ok [mkP TD FLRef; mkP TInt FVal] (Some TDouble) (TBindLast (TFun [mkP TB FLRef; mkP TLong FCRef; mkP TPB FVal] (Some TInt)) TPD) = true /\
-  direct_ok [mkP TD FCRef] None (TFun [mkP TB FLRef] None) = false.
-Proof. vm_compute. split; reflexivity. Qed.
+  direct_ok [mkP TD FCRef] None (TFun [mkP TB FLRef] None) = false /\
+  (* bind<0>(hide<2>(f), pointer to D): f is called with (the pointer, the first argument) *)
+  lib_accepts gen_hop_modes gen_memfun_pass gen_slices [mkP TLong FVal; mkP TU FCRef] None
+    (TBindAt 0 (THideAt 2 (TFun [mkP TPB FVal; mkP TDouble FCRef] None)) TPD) = true /\
+  direct_ok [mkP TLong FVal; mkP TU FCRef] None (TBindAt 3 (TFun [mkP TLong FVal; mkP TU FCRef; mkP TPB FVal] None) TPD) = false.
+Proof. vm_compute. repeat split; reflexivity. Qed.
